@@ -479,7 +479,7 @@ fn accept_once_step<const N: usize>() {
         Err(_) => {}
     }
     kani::cover!(pn > off + N as u64, "arrival leaves a gap");
-    kani::cover!(N == 0 || pn < off + N as u64, "arrival fills a hole");
+    kani::cover!(N < 2 || pn < off + N as u64, "arrival fills a hole");
     kani::cover!(matches!(r2, Ok(p2) if p2 < pn), "second arrival accepted below");
     kani::cover!(matches!(r2, Err(InvalidPacketNumber::Duplicate)), "second arrival refused as duplicate");
     core::mem::forget(j);
